@@ -168,7 +168,7 @@ class World(object):
         if spec.get('par_name_seed') is not None:
             # what the package author calls the columns is the author's business: names that coincide with the fitter's
             # own quantities, mixed case, one much wider than a listing column
-            pool = ['AV', 'SCALE', 'CHI2', 'N_FITS', 'TSTAR', 'Mdot', 'inclination_of_the_outflow_cavity', 'x', 'LOG_D']
+            pool = ['AV', 'SCALE', 'CHI2', 'N_FITS', 'TSTAR', 'Mdot', 'inclination_of_the_outflow_cavity', 'x', 'LOG_D', 'L', 'M', 'NAME', 'MODEL']
             gp = np.random.default_rng(spec['par_name_seed'])
             self.par_names = [pool[i] for i in gp.permutation(len(pool))[:spec['n_par']]]
         self.pars = {}
@@ -251,7 +251,8 @@ class World(object):
                 self.unc = self.unc.copy()
                 self.val[m] = v
                 self.unc[m] = e
-        self.ext_wav = np.logspace(-2, 4, int(spec.get('ext_n', 40)))
+        er_ = spec.get('ext_range') or [-2, 4]           # the law may be tabulated over less than the models' wavelength range
+        self.ext_wav = np.logspace(er_[0], er_[1], int(spec.get('ext_n', 40)))
         self.ext_chi = 100.0 * self.ext_wav ** (-spec['ext_slope'])
 
     def ap_storage_order(self):
